@@ -5,6 +5,7 @@ SPEC = {
     "tests": [
         {"name": "TestHTTPGun", "quick": 160, "thorough": 12000, "shards_quick": 8, "shards_thorough": 16, "timeout": 3000},
         {"name": "TestScenarioGun", "quick": 240, "thorough": 16000, "shards_quick": 8, "shards_thorough": 16, "timeout": 3000},
+        {"name": "TestScenarioDataFlow", "quick": 320, "thorough": 16000, "shards_quick": 8, "shards_thorough": 16, "timeout": 3000},
         {"name": "TestGRPCGuns", "quick": 64, "thorough": 4000, "shards_quick": 8, "shards_thorough": 16, "timeout": 3000},
         {"name": "TestHTTP2Gun", "quick": 96, "thorough": 6000, "shards_quick": 8, "shards_thorough": 16, "timeout": 3000},
         {"name": "TestHTTP2ScenarioGun", "quick": 96, "thorough": 6000, "shards_quick": 8, "shards_thorough": 16, "timeout": 3000},
@@ -47,7 +48,21 @@ SPEC = {
              "WITHOUT `timeout` (TestGRPCDefaultTimeout, both guns in every case, 2-4 calls, 1-2 instances for grpc, assert/response "
              "on/off for grpc/scenario) against a target of their own that accepts one call and never answers it: the documented default "
              "request timeout (15 s) must end that call - 504 sample, later calls 200 - and the run must be over 25 s after the target "
-             "received the call. Pools are built by config.DecodeAndValidate, run by the real "
+             "received the call. TestScenarioDataFlow (http/scenario, 2-5 steps, 3-7 invocations, one instance): response data that LATER "
+             "steps and the error paths work on. (a) a list step stores an array from the response (var/jsonpath $.items, $.items[*].id, "
+             "$.items[*].name, or var/xpath //li/@data-id) and a later step takes one element of it into a header - a preprocessor mapping "
+             "request.<step>.postprocessor.items[last | next | rand | N, N in -3..7](.id | .name) or a template {{index ... N}} -; after "
+             "normal answers (3-4 elements) the target sends a valid 200 document whose array is EMPTY, has 1, 2 or 5 elements (shorter "
+             "than the index), holds numbers instead of objects, mixed / nested values, or is null, an object, a string or absent "
+             "(var/xpath: 0 matches = empty array, 1 match = a string). (b) assert/response steps with 1-2 body patterns (status_code, "
+             "headers, size conditions on/off) - and any other step - answered with bodies built by texture (one repeated character, hex, "
+             "base64, minified JSON with one long token, binary, multi-byte text, pretty JSON, multi-line HTML error page), length (0-254, "
+             "255-258, 259-1023, 1-8 KiB, powers of two +-1 up to 64 KiB, up to 200 kB), whitespace placement for the textures that have "
+             "none of their own (none at all, only the first byte, byte 255 / 256, after 256, the last byte, sparse), status 200 / 4xx / "
+             "5xx and content type; one body in four has the patterns written into it (start, end, across byte 256), so it may satisfy the "
+             "assertion: such an invocation must then be clean to its end. A step whose request never reached the target must be a "
+             "failure sample (proto 0, net error) and must depend on the misbehaving answer; a step that was sent and answered well must be "
+             "a clean 200; an invocation may end early only at a sample that is not a clean 200. Pools are built by config.DecodeAndValidate, run by the real "
              "engine, samples read from the real phout output. Non-trivial = at least one misbehaving exchange followed by a good one; "
              "distinct = hash of the case."),
     "floors": {"TestScenarioGun/post_header_substr": 0.15, "TestScenarioGun/post_jsonpath": 0.15, "TestScenarioGun/post_xpath": 0.15,
@@ -75,6 +90,16 @@ SPEC = {
                "TestConnectProxy/connect_refused_body_truncated_conn_open": 0.13,
                "TestConnectProxy/connect_refused_body_truncated_conn_open_no_close_header": 0.09,
                "TestConnectProxy/connect_refused_complete_conn_open": 0.25, "TestConnectProxy/connect_keep_alive": 0.15,
+               "TestScenarioDataFlow/array_empty_indexed_last": 0.05, "TestScenarioDataFlow/array_empty_indexed_next": 0.03,
+               "TestScenarioDataFlow/array_empty_indexed_rand": 0.025, "TestScenarioDataFlow/array_empty_indexed_num": 0.02,
+               "TestScenarioDataFlow/array_empty_indexed_in_template": 0.05, "TestScenarioDataFlow/array_shorter_than_index": 0.03,
+               "TestScenarioDataFlow/not_an_array_indexed": 0.07, "TestScenarioDataFlow/dependent_step_failed_unsent": 0.25,
+               "TestScenarioDataFlow/dependent_step_ran": 0.1,
+               "TestScenarioDataFlow/assert_body_fails_long_no_ws_in_head": 0.08, "TestScenarioDataFlow/assert_body_fails_long_with_ws": 0.07,
+               "TestScenarioDataFlow/assert_body_fails_short": 0.05, "TestScenarioDataFlow/assert_body_fails_long_no_ws_minjson": 0.006,
+               "TestScenarioDataFlow/assert_body_fails_long_no_ws_base64": 0.006, "TestScenarioDataFlow/assert_body_fails_long_no_ws_hex": 0.006,
+               "TestScenarioDataFlow/assert_body_fails_long_no_ws_filler": 0.006, "TestScenarioDataFlow/assert_body_fails_long_no_ws_binary": 0.004,
+               "TestScenarioDataFlow/blob_len_ge_64k": 0.04,
                # absolute counts (every case of the batch runs both guns)
                "TestGRPCDefaultTimeout/default_timeout_grpc_gun": 1, "TestGRPCDefaultTimeout/default_timeout_grpc_scenario_gun": 1},
     "manifest": {
